@@ -47,6 +47,10 @@ CLAIMED = {
    text="Threshold clauses decided for all keys: the prime table is compared with a sieve; PrimeNoSmallerThan752's decision table shows false iff some table entry divides the argument; for each of the 13 key-quality lints the decision table of Execute (big.Int BitLen/Mod/Cmp/NewInt as atoms) is evaluated with the checker's own big-integer arithmetic on both sides of every threshold (bit lengths 1023/1024/1025, 2047/2048/2049, 3071/3072/3073, non-multiples of 8, odd/even, small factors, exponents 1,2,3,4,65536,65537,…) and must agree in operator, constant, polarity and status with the stated predicate; the exponent upper bound 2^256 and the Fermat round count (i = 0..Rounds-1) are checked structurally. The Fermat clause itself (close primes are found; reported factors multiply back) is a numerical loop and is NOT decided.",
    note=TRUST+"math/big is trusted. The Fermat search's arithmetic is outside the claim (seeded change C16-B, a wrong quadratic-residue pre-filter, is not detected).",
    technique="constant-table census with checker-side sieve; decision-table extraction over go/ssa evaluated at boundary points with big-integer arithmetic", ref="§3 C16"),
+ "C19": dict(level="other",
+   text="Shape of IsIANAReserved / IntersectsIANAReserved decided by decision tables (¬global-unicast shortcut, same table, both containment directions) on all abstract cases; the table's 84 CIDR literals are read from the syntax tree and, with the established model, the checker's own interval arithmetic (Go net library as trusted transcription) decides: every special-purpose block of the statement reserved at its first/last address in 4-byte and mapped form, public addresses not, every supernet of every listed / required / shortcut-only block intersects, single-address networks agree with the address test; decision tables of the three lints. Table and monotonicity clauses are complete for all addresses and prefix lengths because prefixes nest or are disjoint.",
+   note=TRUST+"net.IP.IsGlobalUnicast / IPNet.Contains / ParseCIDR semantics are used as the model, not verified. The .arpa lint's string parsing is outside the claim.",
+   technique="decision-table extraction over go/ssa + constant-table census with checker-side prefix arithmetic", ref="§3 C19"),
 }
 
 NOT_YET = "check not built yet in this session (see DESIGN.md §3 for the planned static rule)"
